@@ -1114,3 +1114,60 @@ def r19_14_direct_fill_passes_the_image_bounds(ck, P, rid='C19-R14'):
                 ck.violation(R, f.name, 'direct fill without the image bounds', '%s can reach %s (%s) along a path that does not intersect the fill region with the rectangle of the image (0, 0, width, height): with a clip that reaches beyond the image (pixman_image_set_clip_region does not trim it) and a box that does too, rows and columns outside the image are written' % (f.name, c.callee, c.loc()), c.loc())
     if n == 0:
         raise AnalysisBroken('%s: no exported function handing an image\'s bits to pixman_fill / pixman_blt found' % rid)
+
+
+def r_same_storage_needs_same_offsets(ck, P, rid='C09-R13'):
+    """belief rule, second clause of C02-R22: 'source and mask are one buffer holding colour and alpha' is acted upon (the formats are
+    renamed to the pixbuf pseudo-formats, whose fast paths take alpha from the *source* pixel) only where both are read at the same
+    position: the x offsets and the y offsets of the two images are compared on the same path."""
+    R = ck.rule(rid, 'every block that runs only when the bits pointers of two different images are equal, and that stores or calls, also runs only when the request reads both at the same offsets: two equality tests between integer parameters of the function, one for the x and one for the y offsets (src_x == mask_x, src_y == mask_y): otherwise the pixbuf fast paths take the alpha of source pixel (x, y) - the undefined byte of an x8b8g8r8 view - where the mask pixel at its own offset was asked for', floor=1)
+    n = 0; reported = set()
+    for f in P.functions():
+        ptr_tests = {}
+        for b in f.blocks:
+            t = b.term
+            if t.op != 'br' or not t.a:
+                continue
+            x, p, ops = f.cond(t.a[0])
+            if x is None or x.op != 'icmp' or p not in ('eq', 'ne'):
+                continue
+            ys = [f.v(a) if a[0] == 'v' else None for a in x.a]
+            if any(y is None or y.op != 'load' or f.last_field(f.path(y.a[0])) != 'bits_image.bits' for y in ys):
+                continue
+            if f.root(f.path(ys[0].a[0])) == f.root(f.path(ys[1].a[0])):
+                continue
+            ptr_tests[t.i] = (t.d['succ'][0] if p == 'eq' else t.d['succ'][1], x)
+        if not ptr_tests:
+            continue
+        for b in f.blocks:
+            ge = f.guard_edges(b.id)
+            for t, s in ge:
+                if t.i not in ptr_tests or ptr_tests[t.i][0] != s:
+                    continue
+                if not (b.term.op != 'br' or not b.term.a or any(q.op in ('store', 'call') for q in b.insts)):
+                    continue
+                x = ptr_tests[t.i][1]
+                n += 1; ck.saw(f)
+                axes = set()
+                for t2, s2 in ge:
+                    if t2.op != 'br' or not t2.a:
+                        continue
+                    c, p, ops = f.cond(t2.a[0])
+                    if c is None or c.op != 'icmp' or p not in ('eq', 'ne') or len(ops) != 2:
+                        continue
+                    if (p == 'eq') != (t2.d['succ'][0] == s2):
+                        continue
+                    o0, o1 = f.strip_casts(ops[0]), f.strip_casts(ops[1])
+                    if o0[0] == 'a' and o1[0] == 'a' and o0[1] != o1[1]:
+                        n0, n1 = f.params[o0[1]][0] or '', f.params[o1[1]][0] or ''
+                        for ax in ('x', 'y'):
+                            if n0.endswith('_' + ax) and n1.endswith('_' + ax):
+                                axes.add(ax)
+                where = '%s: block at %s under the pointer test at %s' % (f.name, b.term.loc(), x.loc())
+                if axes == {'x', 'y'}:
+                    ck.ok(R, where, 'x and y offsets compared')
+                elif (f.name, t.i) not in reported:
+                    reported.add((f.name, t.i))
+                    ck.violation(R, f.name, 'same-buffer test at %s without equal offsets' % x.loc(), '%s acts on "both images are the same buffer" (%s) at %s without having compared the %s offsets of the two images: read at different positions, the mask pixel is not the source pixel, and the pixbuf fast paths, which take colour and alpha from the source pixel, composite with the wrong alpha' % (f.name, x.loc(), b.term.loc(), ' and '.join(sorted({'x', 'y'} - axes))), x.loc())
+    if n == 0:
+        raise AnalysisBroken('%s: no comparison of two images\' bits pointers found (pixbuf detection)' % rid)
